@@ -206,13 +206,25 @@ def corr_initvel(ctx: Ctx, drv):
             md._zero_com(mol, remove_angular=False, restore_kinetic_energy=False)
             after = mol.velocities.numpy()
             mass = mol.mass.numpy()[..., 0]
-            m0 = 0
-            for comp in range(3):
-                out = drv.ask("zerocom_linear", mass.shape[1], *[f2b(t) for t in mass[m0]], *[f2b(t) for t in before[m0, :, comp]])
-                want = after[m0, :, comp]
-                ok = len(out) == len(want) and all(abs(b2f(o) - w) <= 1e-13 * max(1e-3, abs(w)) + 1e-18 for o, w in zip(out, want))
-                ctx.corr_case("_zero_com(linear)", {"names": names, "comp": comp, "padded": bool((s == 0).any())}, [b2f(o) for o in out][:3] if len(out) == len(want) else out, want[:3].tolist(), ok,
-                              stratum="padded" if (s[m0] == 0).any() else "full")
+            for m0 in range(mass.shape[0]):
+                for comp in range(3):
+                    # live code = masked subtraction (padding atoms stay at rest); `zerocom_linear` (unmasked) is the pre-repair form
+                    out = drv.ask("zerocom_linear_masked", mass.shape[1], *[f2b(t) for t in mass[m0]], *[f2b(t) for t in before[m0, :, comp]])
+                    want = after[m0, :, comp]
+                    ok = len(out) == len(want) and all(abs(b2f(o) - w) <= 1e-13 * max(1e-3, abs(w)) + 1e-18 for o, w in zip(out, want))
+                    ctx.corr_case("_zero_com(linear)", {"names": names, "mol": m0, "comp": comp, "padded": bool((s[m0] == 0).any())}, [b2f(o) for o in out][:3] if len(out) == len(want) else out,
+                                  want[:3].tolist(), ok, stratum="padded" if (s[m0] == 0).any() else "full")
+            # exact rescale to the target temperature
+            mol.velocities = (xi * scale).clone()
+            Ek = md._kinetic_energy(mol)
+            T1 = md._calc_temperature(Ek)
+            v_before = mol.velocities.numpy().copy()
+            alpha = torch.sqrt(temp / T1)
+            v_after = (mol.velocities * alpha.reshape(-1, 1, 1)).numpy()
+            out = drv.ask("rescale", f2b(temp), f2b(float(T1[0])), v_before[0].size, *[f2b(t) for t in v_before[0].reshape(-1)])
+            want = v_after[0].reshape(-1)
+            ok = len(out) == len(want) and max(ulp_diff(b2f(o), float(w)) for o, w in zip(out, want)) <= 2
+            ctx.corr_case("rescale to target temperature", {"names": names, "temp": temp}, "ulp<=2" if ok else out[:3], want[:3].tolist(), ok)
     finally:
         MD.esdriver = old
 
